@@ -43,6 +43,8 @@ EXTRA_KINDS = {
 def outcome_under(kind, base, options):
     if base == 'disabled':
         return base
+    if kind.startswith('fail_bad_directive'):
+        return base         # the directive itself is read (and rejected) whatever the defaults say
     if options == '+SKIP':
         return 'skipped'
     if options == '-ELLIPSIS' and kind == 'opt_ellipsis':
